@@ -95,6 +95,7 @@ type checkRun struct {
 	funcs    []string
 	stale    string
 	extra    []extraCheck
+	notes    []string
 }
 
 // extraCheck: engines other than the VC generator contribute obligations through this hook.
@@ -397,6 +398,7 @@ func cmdCheck(args []string) int {
 			"baseline_missing": nonNil(missing),
 			"samples":      samples,
 			"stand_ins":    run.standIns(),
+			"notes":        nonNil(run.notes),
 			"explanation":  "every obligation is a verification condition generated from the go/ssa form of the function in /repo's working tree and its //@ contract; discharged = unsat of the negated VC by at least one of z3 4.8.12 / z3 5.1.0 / cvc5",
 		},
 		"assumptions": append(trusted, globalAssumptions...),
@@ -461,7 +463,47 @@ func maxInt(a, b int) int {
 func round3(x float64) float64 { return float64(int(x*1000+0.5)) / 1000 }
 
 // extraObligations: closed-formula engines (tables, footprints) hook in here.
-func (w *World) extraObligations(run *checkRun) {}
+func (w *World) extraObligations(run *checkRun) {
+	switch run.prop {
+	case "C08", "C09":
+		fr := &FuncResult{Fn: "footprint"}
+		run.results = append(run.results, fr)
+		fp := w.footprintChecks()
+		for _, f := range fp.reachable {
+			run.funcs = append(run.funcs, f.String())
+		}
+		for _, gc := range fp.checks {
+			if run.prop == "C09" && strings.HasPrefix(gc.name, "determinism.") {
+				continue
+			}
+			o := w.groundObligation(run.prop, gc)
+			o.Kind = "frame"
+			o.Fn = "footprint"
+			run.items = append(run.items, workItem{fr, o})
+		}
+		var ext []string
+		for e := range fp.externals {
+			ext = append(ext, e)
+		}
+		sort.Strings(ext)
+		run.trusted["external callees on the decode/encode paths are assumed free of observable global state and safe for concurrent use: "+strings.Join(ext, ", ")] = true
+		if run.prop == "C09" {
+			run.trusted["disjoint-footprint (frame) rule and the Go memory model's DRF guarantee: calls whose write sets are disjoint and that read none of each other's writes are race free and equivalent to sequential execution; no schedule is enumerated"] = true
+		}
+	case "C20":
+		w.stringerObligations(run)
+	case "C15":
+		fr := &FuncResult{Fn: "profile tables"}
+		run.results = append(run.results, fr)
+		run.funcs = append(run.funcs, "profile tables: _fields, knownMsgNums, msgsTypes, newMesgFuncs, 101 message structs and constructors, 17 containers (closed formulas)")
+		for _, gc := range w.tableChecks() {
+			run.items = append(run.items, workItem{fr, w.groundObligation("C15", gc)})
+		}
+		for n := range w.initNotes {
+			run.trusted[n] = true
+		}
+	}
+}
 
 
 // expandFailed replaces failed coarse obligations by their finer expansion.
